@@ -260,6 +260,50 @@ theorem setLiving_inv {c : Core} {i : Nat} (s : String) (hI : Inv c) (hi : i < c
     exact h2
 
 
+
+/-! ## sentences: add_action / remove_sent touch nothing the invariant reads -/
+
+/-- `c'` differs from `c` at most in the sentence lists -/
+def SentOnly (c c' : Core) : Prop := c' = c ∨ ∃ f, c' = mapSent c f
+
+theorem sentOnly_proj {c c' : Core} (h : SentOnly c c') :
+    c'.n = c.n ∧ c'.ot = c.ot ∧ c'.ol = c.ol ∧ c'.dl = c.dl ∧ c'.lv = c.lv ∧ c'.ctr = c.ctr ∧
+    deadF c' = deadF c ∧ supF c' = supF c ∧ contF c' = contF c ∧ nameF c' = nameF c ∧ freedF c' = freedF c ∧
+    ecF c' = ecF c ∧ lnF c' = lnF c := by
+  rcases h with h | ⟨f, h⟩ <;> subst h
+  · exact ⟨rfl, rfl, rfl, rfl, rfl, rfl, rfl, rfl, rfl, rfl, rfl, rfl, rfl⟩
+  · exact ⟨rfl, rfl, rfl, rfl, rfl, rfl, rfl, rfl, rfl, rfl, rfl, rfl, rfl⟩
+
+theorem sentOnly_inv {c c' : Core} (h : SentOnly c c') (hI : Inv c) : Inv c' := by
+  obtain ⟨a1, a2, a3, a4, a5, a6, b1, b2, b3, b4, b5, b6, b7⟩ := sentOnly_proj h
+  constructor
+  · rw [a1, b1, b2, b3]; exact hI.links
+  · rw [a1, b1, b4, a2, a6]; exact hI.names
+  · rw [a1, b1, b5, a3, a4]; exact hI.lists
+  · rw [a1, b1, b6, b7, a5]; exact hI.living
+
+theorem unsentMove_sentOnly (c : Core) (item : Nat) : SentOnly c (unsentMove c item) := by
+  unfold unsentMove
+  split
+  · exact Or.inl rfl
+  · exact Or.inr ⟨_, rfl⟩
+
+theorem unsentDestruct_sentOnly (c : Core) (ob : Nat) : SentOnly c (unsentDestruct c ob) := by
+  unfold unsentDestruct
+  split
+  · exact Or.inl rfl
+  · exact Or.inr ⟨_, rfl⟩
+
+theorem addSent_sentOnly (c : Core) (g : Nat) (v : String) (ob : Nat) : SentOnly c (addSent c g v ob) :=
+  Or.inr ⟨_, rfl⟩
+
+/-- pointwise view of `sentOnly_proj` -/
+theorem sentOnly_obj {c c' : Core} (h : SentOnly c c') (i : Nat) :
+    (c'.objs i).destructed = (c.objs i).destructed ∧ (c'.objs i).super = (c.objs i).super ∧
+    (c'.objs i).contains = (c.objs i).contains ∧ (c'.objs i).freed = (c.objs i).freed ∧
+    (c'.objs i).ec = (c.objs i).ec ∧ (c'.objs i).name = (c.objs i).name ∧ (c'.objs i).living = (c.objs i).living := by
+  rcases h with h | ⟨f, h⟩ <;> subst h <;> exact ⟨rfl, rfl, rfl, rfl, rfl, rfl, rfl⟩
+
 /-! ## the initial state -/
 
 def Core.empty : Core :=
